@@ -582,6 +582,8 @@ func genBatch(r *rand.Rand, i int) *Program {
 	n := r.Intn(5)
 	if r.Intn(6) == 0 {
 		n = 0
+	} else if r.Intn(5) == 0 {
+		n = 5 + r.Intn(4)
 	}
 	var ks, prios []int
 	for j := 0; j < n; j++ {
@@ -599,13 +601,19 @@ func genBatch(r *rand.Rand, i int) *Program {
 	}
 	a = append(a, Op{Op: "gwait", B: 0}, Op{Op: "gpending", B: 0})
 	var b []Op
-	switch r.Intn(5) {
+	switch r.Intn(6) {
 	case 0:
 		b = append(b, Op{Op: "purge"})
 	case 1:
 		a = append([]Op{{Op: "qclose"}}, a...)
 	case 2:
 		b = append(b, Op{Op: "gpending", B: 0}, Op{Op: "gwait", B: 0})
+	case 3:
+		// the queue is closed while AddAll is (possibly) still running: a tail of the batch is refused
+		b = append(b, Op{Op: "qclose"})
+		if r.Intn(2) == 0 {
+			b = append([]Op{{Op: "yield"}}, b...)
+		}
 	}
 	p.Threads = [][]Op{a}
 	if len(b) > 0 {
@@ -762,6 +770,21 @@ func genOutcomes(r *rand.Rand, i int) *Program {
 			a = append(a, Op{Op: "jresult", K: ad.K})
 		}
 	}
+	if r.Intn(3) == 0 {
+		// all submissions first, the reads afterwards: with a limit above 1 several worker functions return at about
+		// the same time, each outcome has to reach its own handle
+		var adds, reads []Op
+		for _, op := range a {
+			if op.Op == "add" {
+				adds = append(adds, op)
+			} else {
+				reads = append(reads, op)
+			}
+		}
+		a = append(adds, reads...)
+		p.Conc = 2 + r.Intn(2)
+		p.WFYields = 1
+	}
 	a = append(a, Op{Op: "wuf"}, Op{Op: "counts"})
 	p.Threads = [][]Op{a, b}
 	return p
@@ -780,6 +803,21 @@ func genGate(r *rand.Rand, i int) *Program {
 	p.Threads = [][]Op{a}
 	if len(c) > 0 {
 		p.Threads = append(p.Threads, c)
+	}
+	if r.Intn(2) == 0 {
+		// some of the gated jobs are let go one after the other while the rest stay in flight: every slot given back
+		// is taken by the next pending job, which then stays in flight too — the number of invocations in flight is
+		// directly visible at every start
+		extra := g.adds(2 + r.Intn(4))
+		p.Threads[0] = append(p.Threads[0], extra...)
+		var rel []Op
+		for k := 0; k < 1+r.Intn(4); k++ {
+			rel = append(rel, Op{Op: "release", K: k})
+			if r.Intn(3) == 0 {
+				rel = append(rel, Op{Op: "yield"})
+			}
+		}
+		p.Threads = append(p.Threads, rel)
 	}
 	return p
 }
